@@ -34,7 +34,7 @@ ASSUME = [
     "resolvable droplet: radius >= 3 cells, width 1-2 cells (of the mean spacing), spacing anisotropy <= 1.25, centre at least "
     "radius + 2 widths + 2 cells away from non-periodic faces; well-separated: interface gap >= 10 widths",
     "position error is measured in units of the mean cell size (stricter than relative to the radius), modulo the period on periodic axes",
-    "identifiability is proved in one dimension for known levels only; fitted levels and higher dimensions are covered by measurement",
+    "identifiability is proved for known levels (1-d from three cells; every dimension / metric from the two centres and one further point); fitted levels and identifiability from grid cells alone in d >= 2 are covered by measurement",
 ]
 RULE = ("one evaluation = one locate_droplets(refine=True) call on a rendered image; grid families cart1/cart2/cart3 (random "
         "periodicity mask, mildly anisotropic, NON-SQUARE: cell counts 16-20 vs 36-48 in 2-d, 12-14 vs 24-30 in 3-d, random axis order), "
@@ -235,7 +235,7 @@ def check(ctx: vlib.Ctx) -> int:
     import droplets
     ctx.extra["implementation"] = str(droplets.__file__)
     rng = random.Random(ctx.seed)
-    ok, fresh = rc.prove_with_fallback(ctx, ["Proofs/C05.vo", "Proofs/RefineCand.vo", "Model/Samples.vo"],
+    ok, fresh = rc.prove_with_fallback(ctx, ["Proofs/C05.vo", "Proofs/C05Metric.vo", "Proofs/RefineCand.vo", "Model/Samples.vo"],
                                        ["Gen_refine", "Gen_refine_R", "Gen_shapes"])
     # (b) sample goals
     if ok:
